@@ -67,6 +67,11 @@ CHECKS = {
    note=TB + 'Modelled: stores are logged at serialization granularity (one event per root structure write), in template statement order; the entry clock sample precedes the section (reading fixed in DESIGN.md section 9); the flag value at individual machine stores of the compiled code is not observed.',
    technique='Coq proof (invariant over all histories) + differential run with flag values',
    ref='5.C16'),
+ 'C17': dict(
+   text='Coq theorems: C17_no_writable_static (in the declaration list regenerated from the C templates on every run every object with static storage duration is const), and on the product model of n single-context machines C17_frame (a call on one context leaves every other context unchanged), C17_interleaving (for every interleaving each context ends where its own history alone leads it), C17_interleavings_agree. Validation (named): nm of compiled objects shows no .data/.bss symbol; one context per thread under ThreadSanitizer, concurrent byte streams = sequential ones.',
+   note=TB + 'Partial: that the compiled functions access nothing but their arguments is validated (nm, TSan), not proved; the single-context component of the product model is Tracer/Model.v (tied by the C01-C07 correspondence runs); hardware-level races are outside any Gallina model.',
+   technique='Coq proof (product model frame/interleaving + obligation on regenerated declarations) + nm / ThreadSanitizer validation',
+   ref='5.C17'),
  'C19': dict(
    text='Coq theorems on file-scope declarations regenerated from the C templates on every run: every external symbol starts with the identifier prefix (C19_symbols_prefixed), incomparable prefixes give disjoint symbol sets (C19_disjoint_prefix_disjoint_symbols; refuted for nested prefixes), file names, CLI --prefix override (translated function), default-stream macros and tracepoint() resolve to the tracing function. Validation: nm of compiled objects = model symbol set, two tracers linked and run in one program, gcc -E expansion of the shorthand macros.',
    note=TB + 'Partial: linking is a toolchain fact (validated). Trusted: tools/cdecl_scan.py, tools/py2coq.py. Known finding: nested prefixes can collide (a_ + b_s vs a_b_ + s).',
